@@ -31,10 +31,18 @@
 (*     file unchanged, or accepted with value-correct rows;                        *)
 (*   - a header passed with a write that is not the first one: ignored, or the     *)
 (*     write rejected (never stored);                                              *)
-(*   - opening 'r+' a path that does not exist: opens as creating, or rejected;    *)
+(*   - opening 'r+' a path that does not exist: opens as creating (the handle is   *)
+(*     then a write-only one: "change the mode to write"), or rejected;            *)
+(*   - opening 'w+': the statement names no mode that must be openable for reading *)
+(*     and writing at once: opens as creating, or rejected (the path may have been *)
+(*     truncated by the attempt);                                                  *)
 (*   - append to a blank file: creates, or rejected;                               *)
 (*   - reading a missing/blank file, reading through a write-only handle, reading  *)
-(*     a path a writer has open: unconstrained (res.err = "any").                  *)
+(*     a path a writer has open: unconstrained (res.err = "any");                  *)
+(*   - reading through a handle opened for reading *and* writing: the statement    *)
+(*     does not say such a handle must be able to read (res.err = "mayreject": a   *)
+(*     rejection is accepted), but a table it returns is "reading the file" and    *)
+(*     must be the concatenation, with its header and count.                       *)
 EXTENDS VU
 
 CONSTANTS Paths,        \* finite set of path ids (1..NP)
@@ -66,6 +74,8 @@ Compat(f, c) ==
 NoRes(o)      == [op |-> o, err |-> "none", descr |-> NoDescr, rows |-> <<>>, hdr |-> "none", size |-> -1, delim |-> "none"]
 RejRes(o)     == [NoRes(o) EXCEPT !.err = "rejected"]
 AnyRes(o)     == [NoRes(o) EXCEPT !.err = "any"]
+MayRejRes(r)  == [r EXCEPT !.err = "mayreject"]         \* r, or a rejection
+Returned(r)   == r.err \in {"none", "mayreject"}         \* the outcome carries data the caller may have got
 CountRes(o, n) == [NoRes(o) EXCEPT !.size = n]
 DataRes(o, f) == [op |-> o, err |-> "none", descr |-> f.descr, rows |-> f.rows, hdr |-> f.hdr, size |-> f.size, delim |-> f.delim]
 HdrRes(o, f)  == [DataRes(o, f) EXCEPT !.rows = <<>>]
@@ -88,22 +98,23 @@ RSInit == /\ files = [p \in Paths |-> Missing]
 \* SFile(path, mode=m, delim=dl)
 Open(h, p, m, dl) ==
     /\ ~handles[h].open /\ ~WriterOn(p) /\ m \in WriteModes
-    /\ LET creating == [open |-> TRUE, path |-> p, mode |-> m, fresh |-> TRUE, delim |-> dl] IN
-       IF m \in {"w", "w+"}
-       THEN /\ files' = [files EXCEPT ![p] = Blank]
-            /\ handles' = [handles EXCEPT ![h] = creating]
-            /\ res' = NoRes("open")
-       ELSE IF files[p].st = "ok"
-       THEN /\ handles' = [handles EXCEPT ![h] = [open |-> TRUE, path |-> p, mode |-> m, fresh |-> FALSE,
-                                                  delim |-> files[p].delim]]
-            /\ res' = CountRes("open", files[p].size)
-            /\ UNCHANGED files
-       ELSE \/ /\ files' = [files EXCEPT ![p] = Blank]           \* "changed to write mode"
-               /\ handles' = [handles EXCEPT ![h] = creating]
-               /\ res' = NoRes("open")
-            \/ /\ files' \in {files, [files EXCEPT ![p] = Blank]} \* rejected
-               /\ res' = RejRes("open")
-               /\ UNCHANGED handles
+    /\ LET creating(em) == [open |-> TRUE, path |-> p, mode |-> em, fresh |-> TRUE, delim |-> dl]
+           Creates(em) == /\ files' = [files EXCEPT ![p] = Blank]
+                          /\ handles' = [handles EXCEPT ![h] = creating(em)]
+                          /\ res' = NoRes("open")
+           Rejects     == /\ files' \in {files, [files EXCEPT ![p] = Blank]}   \* the attempt may have truncated / created p
+                          /\ res' = RejRes("open")
+                          /\ UNCHANGED handles
+       IN
+       CASE m = "w"  -> Creates("w")
+         [] m = "w+" -> Creates("w+") \/ Rejects
+         [] m = "r+" ->
+              IF files[p].st = "ok"
+              THEN /\ handles' = [handles EXCEPT ![h] = [open |-> TRUE, path |-> p, mode |-> m, fresh |-> FALSE,
+                                                         delim |-> files[p].delim]]
+                   /\ res' = CountRes("open", files[p].size)
+                   /\ UNCHANGED files
+              ELSE Creates("w") \/ Rejects                       \* "changed to write mode": a write-only handle
 
 \* sf.write(chunk, header=hd) through an open handle
 HWrite(h, c, hd) ==
@@ -122,7 +133,7 @@ HWrite(h, c, hd) ==
 HRead(h) ==
     /\ handles[h].open
     /\ res' = IF handles[h].mode = "w" \/ handles[h].fresh THEN AnyRes("read")
-              ELSE DataRes("read", files[handles[h].path])
+              ELSE MayRejRes(DataRes("read", files[handles[h].path]))
     /\ UNCHANGED <<files, handles>>
 
 HClose(h) ==
@@ -186,7 +197,7 @@ HandleInv == \A h \in Handles :
     /\ \A g \in Handles : (g # h /\ handles[h].open /\ handles[g].open) => handles[h].path # handles[g].path
 
 \* a read that is constrained returns exactly the stored table, header and count
-ReadInv == (res.op \in {"read", "readhdr"} /\ res.err = "none") =>
+ReadInv == (res.op \in {"read", "readhdr"} /\ Returned(res)) =>
               \E p \in Paths : /\ files[p].st = "ok" /\ res.descr = files[p].descr /\ res.hdr = files[p].hdr
                                /\ res.size = files[p].size /\ res.delim = files[p].delim
                                /\ (res.op = "read" => res.rows = files[p].rows)
